@@ -364,6 +364,15 @@ def periodic_closure(m, degree, breaks, uniform_flag, ncells, res):
                 res['inconclusive'].append('unknown periodic closure')
 
 
+def tensor_pairs(ders):
+    """derivative orders used for the two tensor-grid entry points: (allocating, in place); asymmetric pairs where the item
+    has them (a swap of the two orders is invisible on (0,0) and (1,1)), and not the same one for both"""
+    asym = [d for d in ders if d[0] != d[1]]
+    if not asym:
+        return ders[0], ders[-1]
+    return asym[-1], asym[0]
+
+
 def vector_entry_points(m, degree, periodic, breaks, uniform_flag, ncells, T, res, item):
     """Spline1D.eval(array), eval_vector(in place) and BSplines[i] agree with the oracle at concrete points
     (all break points, end points, cell mid points) for all coefficient vectors (linear queries)"""
@@ -385,9 +394,12 @@ def vector_entry_points(m, degree, periodic, breaks, uniform_flag, ncells, T, re
         for der in (0, 1):
             out[('array', der)] = list(sp.eval(X, der))
             y = np.empty(len(pts), dtype=object)
+            ys = np.empty(len(pts), dtype=object)
+            for k_ in range(len(pts)):          # the output buffers hold arbitrary values on entry
+                y[k_] = SReal(z3.Real('g%d' % (k_ % 2))) if k_ % 3 else K(Fr(7 + k_, 3))
+                ys[k_] = y[k_]
             sp.eval_vector(X, y, der)
             out[('inplace', der)] = list(y)
-            ys = np.empty(len(pts), dtype=object)
             sp.eval_vector(XS, ys, der)
             out[('inplace_shuffled', der)] = list(ys)
         bas = []
@@ -441,7 +453,8 @@ def vector_entry_points(m, degree, periodic, breaks, uniform_flag, ncells, T, re
                         if name == 'array':
                             got = np.array(fs.eval(xo, der), dtype=float)
                         else:
-                            got = np.empty(len(pts))
+                            gv = [float(Fr(symx.model_value(mdl, SReal(z3.Real('g%d' % q_))))) for q_ in (0, 1)]
+                            got = np.array([gv[k_ % 2] if k_ % 3 else (7 + k_) / 3.0 for k_ in range(len(pts))])      # the entry values of the exact run
                             fs.eval_vector(xo, got, der)
                         dev = float(np.max(np.abs(got - want[order])))
                         if dev > 1e-7 * scale and prob is None:
@@ -613,10 +626,11 @@ def work_2d(item):
         X[0], X[1] = SReal(x), K(b1[0])
         Y = np.empty(2, dtype=object)
         Y[0], Y[1] = SReal(y), K(b2[-1])
-        e1, e2 = ders[0]
+        (e1, e2), (f1, f2) = tensor_pairs(ders)
         out['cross'] = sp.eval(X, Y, e1, e2)
         z = np.empty((2, 2), dtype=object)
-        sp.eval_vector(X, Y, z, e1, e2)
+        z[0, 0], z[0, 1], z[1, 0], z[1, 1] = SReal(z3.Real('g1')), K(Fr(-5, 3)), K(Fr(11, 7)), SReal(z3.Real('g1')) * 2      # arbitrary values on entry
+        sp.eval_vector(X, Y, z, f1, f2)
         out['inplace'] = z
         # scattered-point in-place kernels ({nu,cu}_eval_spline_2d_vector; not reachable through Spline2D): points (x,y) and
         # (a, b_end), output array holding arbitrary values on entry (g0 symbolic, 7/3)
@@ -674,8 +688,7 @@ def work_2d(item):
             Z = val[('vector', e1, e2)]
             checks.append((('vector%d%d' % (e1, e2), 0, 0), Z[0], oracle(C, x, y, e1, e2)))
             checks.append((('vector%d%d' % (e1, e2), 1, 1), Z[1], oracle(C, K(b1[0]), K(b2[-1]), e1, e2)))
-        e1, e2 = ders[0]
-        for name in ('cross', 'inplace'):
+        for name, (e1, e2) in zip(('cross', 'inplace'), tensor_pairs(ders)):
             Z = val[name]
             checks.append(((name, 0, 0), Z[0, 0], oracle(C, x, y, e1, e2)))
             checks.append(((name, 0, 1), Z[0, 1], oracle(C, x, K(b2[-1]), e1, e2)))
@@ -725,7 +738,7 @@ def confirm_2d(m, item, mdl, st, name, res):
         px = xv if i0 == 0 else b1[0]
         py = yv if i1 == 0 else b2[-1]
     else:
-        e1, e2 = ders[0]
+        e1, e2 = tensor_pairs(ders)[0 if ep == 'cross' else 1]
         px = xv if i0 == 0 else b1[0]
         py = yv if i1 == 0 else b2[-1]
     numenv.disable()
@@ -745,7 +758,8 @@ def confirm_2d(m, item, mdl, st, name, res):
             elif ep == 'cross':
                 got = float(sp.eval(X, Y, e1, e2)[i0, i1])
             else:
-                z = np.empty((2, 2))
+                g1 = float(Fr(symx.model_value(mdl, SReal(z3.Real('g1')))))
+                z = np.array([[g1, -5.0 / 3.0], [11.0 / 7.0, 2 * g1]])
                 sp.eval_vector(X, Y, z, e1, e2)
                 got = float(z[i0, i1])
     except Exception as e:
